@@ -459,6 +459,12 @@ class FullRunner(Runner):
                     runner.results.append(f'shut {i} {c} {1 if is_failure else 0} '
                                           f'{runner.pid.get(lost.id, "?") if lost is not None else "-"}')
                 d.add_shutdown_callback(shut)
+            if kv.get('shutrestore', '0') == '1':
+                # a zero-time repair: the machine is restored from inside its own failure
+                def repair(dev, is_failure, lost):
+                    if is_failure:
+                        dev.restore_functionality()
+                d.add_shutdown_callback(repair)
             for c in range(int(kv.get('nrest', '0'))):
                 def rest(dev, c=c, i=i):
                     runner.results.append(f'restored {i} {c}')
@@ -893,6 +899,29 @@ def _asset_initialize(self, env):
 _Asset.initialize = _asset_initialize
 
 
+class MakerX(PartHandler):
+    """a device that builds `n` more assets while it is being initialised (like a scheduler whose first
+    action sets up part of the line); with depth > 1 the last child is a maker again"""
+
+    def __init__(self, runner, n, depth):
+        super().__init__(name=f'M{len(runner.sassets)}')
+        self._mk = (runner, n, depth)
+        self._made = False
+
+    def initialize(self, env):
+        super().initialize(env)
+        if self._made:
+            return
+        self._made = True
+        runner, n, depth = self._mk
+        for j in range(n):
+            if depth > 1 and j == n - 1:
+                runner.sassets.append(MakerX(runner, n, depth - 1))
+            else:
+                cls = [PartHandler, Buffer, Sink, Source][j % 4]
+                runner.sassets.append(cls(name=f'K{len(runner.sassets)}'))
+
+
 class SysRunner(FullRunner):
     CLS = {'handler': PartHandler, 'processor': PartProcessor, 'sink': Sink, 'buffer': Buffer, 'source': Source,
            'maint': Maintainer}
@@ -903,6 +932,11 @@ class SysRunner(FullRunner):
         self.systems = []
         self.sassets = []
         self.init_counts = {}
+
+    @staticmethod
+    def _sname(n):
+        # name number 0 is the empty string (a legal asset name that is falsy)
+        return '' if n == '0' else f'A{n}'
 
     def handle_ext(self, toks):
         if toks[0] != 'S':
@@ -916,9 +950,14 @@ class SysRunner(FullRunner):
             if op == 'new':
                 self.systems.append(System())
                 self.out.append('sres ok')
+            elif op == 'asset' and toks[2] == 'maker':
+                # an asset whose start-up (initialize) constructs further assets, `depth` levels deep
+                a = MakerX(self, int(toks[3]), int(toks[4]))
+                self.sassets.append(a)
+                self.out.append('sres ok')
             elif op == 'asset':
                 cls = self.CLS[toks[2]]
-                a = cls(name=f'A{toks[3]}')
+                a = cls(name=self._sname(toks[3]))
                 self.sassets.append(a)
                 self.out.append('sres ok')
             elif op == 'simulate':
@@ -928,7 +967,7 @@ class SysRunner(FullRunner):
                 sysm = self.systems[int(toks[2])]
                 kw = {}
                 if toks[3] != '-':
-                    kw['name'] = f'A{toks[3]}'
+                    kw['name'] = self._sname(toks[3])
                 if toks[4] != '-':
                     kw['id_'] = self.sassets[int(toks[4])].id if int(toks[4]) < len(self.sassets) else -12345
                 if toks[5] != '-':
